@@ -101,6 +101,13 @@ TBadUnit == /\ IsEv("BadUnit") /\ Tr[l].r \in Runs /\ st[Tr[l].r] \in {"run", "r
             /\ uok' = [uok EXCEPT ![Tr[l].r] = FALSE]
             /\ UNCHANGED <<cfg, in, acc, marks, units, dom, sub, sel, cons, st>>
 
+\* the chunk size option of upipe_chunk_stream changes in the middle of the stream (octets may be held):
+\* every unit is judged by the setting in force when it comes out
+TSet == /\ IsEv("Set") /\ cfg.mode = "chunk" /\ Tr[l].r \in Runs /\ st[Tr[l].r] = "run"
+        /\ Tr[l].mtu >= 1 /\ Tr[l].align >= 1
+        /\ cfg' = [cfg EXCEPT !.mtu = Tr[l].mtu, !.align = Tr[l].align]
+        /\ UNCHANGED <<in, acc, marks, units, dom, sub, sel, cons, uok, st>>
+
 TFlush == /\ IsEv("Flush") /\ Tr[l].r \in Runs /\ st[Tr[l].r] = "run"
           /\ UNCHANGED <<cfg, in, acc, marks, units, dom, sub, sel, cons, uok, st>>
 
@@ -151,7 +158,7 @@ TStop == /\ Violated # {}
          /\ PrintT(<<"TRACE_VIOLATES", l - 1, Violated>>)
          /\ UNCHANGED vars
 
-TNext == \/ Violated = {} /\ (TReset \/ TIn \/ TUnit \/ TBadUnit \/ TFlush \/ TRel \/ TReleased \/ TTimeout)
+TNext == \/ Violated = {} /\ (TReset \/ TIn \/ TUnit \/ TBadUnit \/ TSet \/ TFlush \/ TRel \/ TReleased \/ TTimeout)
          \/ TStop
 TSpec == TInit /\ [][TNext]_vars
 
